@@ -9,7 +9,7 @@ from vlib import Rng
 
 # pools shared with harness/src/bin/c12.rs and ocaml/c12/main.ml
 LEAF_OF_CF = [0, 1, 1, 2, 3, 4, 5]    # cf 1 and 2 are "lib0.so" and "/x/lib0.so": same leafname; 5 "LIB0.SO"; 6 "lib0.soaa"
-NCF, NCI, NDF, NDI = 7, 5, 4, 4
+NCF, NCI, NDF, NDI = 7, 6, 5, 4
 OK, NOTFOUND, MISSING, LOAD, PARSE = range(5)
 STAT = {OK: (1, 0), NOTFOUND: (0, 0), MISSING: (0, 0), LOAD: (0, 0), PARSE: (1, 1)}
 
@@ -103,6 +103,9 @@ PAIR_VARIANTS = [
     ((1, 0, 1, 1), (1, 4, 1, 1)),    # code_id None vs Some("")
     ((1, 1, 1, 1), (1, 1, 3, 1)),    # debug_file differs only in case
     ((1, 1, 1, 1), (1, 1, 1, 3)),    # debug ids: different GUID (last digit), same age
+    # round 5: keys that a key function with a fallback from one component to another would merge
+    ((1, 0, 1, 1), (1, 5, 1, 1)),    # code_id None vs Some(the breakpad text of the debug id)
+    ((1, 1, 0, 1), (1, 1, 4, 1)),    # debug_file None vs Some(the text of the code file)
 ]
 
 
